@@ -583,6 +583,9 @@ class LibMixin:
             return self.opaque_call(st, f"exc.{name}", [], pure=True)
         if isinstance(v, VExcClass) and name == "__name__":
             return [(st, const(v.name))]
+        if isinstance(v, VExcClass) and name == "__mro__":
+            # linearisation of a single-inheritance exception class (repo classes and builtins)
+            return [(st, VTuple(tuple(VExcClass(n) for n in [v.name] + list(self.exc_h.get(v.name, [])))))]
         if isinstance(v, VNone):
             if name == "__class__":
                 return [(st, VConst(("classof", v)))]
